@@ -523,6 +523,17 @@ impl Writer {
     /// Copy data from files that are included for merging. Once finish, copied files are deleted.
     #[tracing::instrument(level = "debug", skip(self))]
     fn merge(&mut self) -> Result<(), Error> {
+        let mut merge_fileid = self.active_fileid + 1;
+        let result = self.merge_files(&mut merge_fileid);
+        if result.is_err() {
+            // Output files up to `merge_fileid` may exist and the active file may be gone. New
+            // entries must never go to a file with a lower ID than the ones that were left behind.
+            self.new_active_datafile(merge_fileid + 1)?;
+        }
+        result
+    }
+
+    fn merge_files(&mut self, last_merge_fileid: &mut u64) -> Result<(), Error> {
         let path = self.ctx.conf.path.as_path();
         let min_merge_fileid = self.active_fileid + 1;
         let mut merge_fileid = min_merge_fileid;
@@ -606,6 +617,7 @@ impl Writer {
                     merge_datafile_writer.get_ref().sync_all()?;
                     merge_hintfile_writer.sync()?;
                     merge_fileid += 1;
+                    *last_merge_fileid = merge_fileid;
                     merge_pos = 0;
                     merge_datafile_writer =
                         BufWriter::new(log::create(utils::datafile_name(path, merge_fileid))?);
